@@ -375,6 +375,47 @@ Definition cmd_construct (c : cfg) (h : obj) (children : list (cfg * obj)) : sex
   | _ => bad
   end.
 
+(* cmd 23: does FromPickleable accept this node array? (0 accepted / RuntimeError / InternalError) *)
+Definition dec_kind (z : Z) : option kind :=
+  if Z.eqb z 0 then Some KdCustom else if Z.eqb z 1 then Some KdLeaf else if Z.eqb z 2 then Some KdNone
+  else if Z.eqb z 3 then Some KdTuple else if Z.eqb z 4 then Some KdList else if Z.eqb z 5 then Some KdDict
+  else if Z.eqb z 6 then Some KdNamed else if Z.eqb z 7 then Some KdODict else if Z.eqb z 8 then Some KdDDict
+  else if Z.eqb z 9 then Some KdDeque else if Z.eqb z 10 then Some KdStruct else None.
+Definition dec_ndata (s : sexp) : option ndata :=
+  match s with
+  | SL [SI 0] => Some DNone
+  | SL (SI 1 :: l) => omap DKeys (omapM dec_key l)
+  | SL (SI 2 :: SI f :: l) => omap (DDefault f) (omapM dec_key l)
+  | SL [SI 3; SI c] => Some (DClass c)
+  | SL [SI 4] => Some (DMaxlen None)
+  | SL [SI 4; SI m] => Some (DMaxlen (Some m))
+  | SL [SI 5; SI m; e] => omap (DMeta m) (dec_ebeh e)
+  | _ => None
+  end.
+Definition dec_okeys (s : sexp) : option (option (list key)) :=
+  match s with
+  | SL [] => Some None
+  | SL (SI 1 :: l) => omap Some (omapM dec_key l)
+  | _ => None
+  end.
+Definition dec_node (s : sexp) : option node :=
+  match s with
+  | SL [SI k; SI ar; d; e; cu; SI nl; SI nn; og] =>
+    obind (dec_kind k) (fun k' => obind (dec_ndata d) (fun d' => obind (dec_okeys e) (fun e' =>
+    obind (dec_okeys og) (fun og' =>
+    let cu' := match cu with SL [SI cls] => Some {| rcls := cls; rns := 0; rid := 0; rpet := 0 |} | _ => None end in
+    Some {| nkind := k'; narity := Z.to_nat ar; ndat := d'; nentries := e'; ncustom := cu';
+            nleaves := Z.to_nat nl; nnodes := Z.to_nat nn; norig := og' |}))))
+  | _ => None
+  end.
+Definition dec_pnode_arr (s : sexp) : option (list node) :=
+  match s with SL l => omapM dec_node l | _ => None end.
+Definition cmd_validate (regs : list reg) (nl : bool) (nsp : Z) (ns : list node) : sexp :=
+  match from_pickle regs (map to_pnode ns, nl, nsp) with
+  | Ok _ => SL [SI 0]
+  | Err e => enc_err e
+  end.
+
 Definition run (s : sexp) : sexp :=
   match s with
   | SL [SI 1; c; o] =>
@@ -485,6 +526,11 @@ Definition run (s : sexp) : sexp :=
       | Some ch => cmd_construct c' h' ch
       | None => bad
       end
+    | _, _ => bad
+    end
+  | SL [SI 23; c; SI nl; SI nsp; arr] =>
+    match dec_cfg c, dec_pnode_arr arr with
+    | Some c', Some ns => cmd_validate (c_reg c') (negb (Z.eqb nl 0)) nsp ns
     | _, _ => bad
     end
   | SL [SI 17; c; o] =>
